@@ -91,13 +91,16 @@ func (s *orderingServer) NodeStream(srv ordering.Gorums_NodeStreamServer) error 
 		if err != nil {
 			return err
 		}
+		verifSrvPoint("srv.recv")
 		if handler, ok := s.handlers[req.Metadata.Method]; ok {
 			// We start the handler in a new goroutine in order to allow multiple handlers to run concurrently.
 			// However, to preserve request ordering, the handler must unlock the shared mutex when it has either
 			// finished, or when it is safe to start processing the next request.
 			go handler(ServerCtx{Context: ctx, once: new(sync.Once), mut: &mut}, req, finished)
+			verifSrvPoint("srv.started")
 			// Wait until the handler releases the mutex.
 			mut.Lock()
+			verifSrvPoint("srv.unlocked")
 		}
 	}
 }
